@@ -1368,5 +1368,11 @@ def insertion(ctx):
     return res
 
 
+# META update: declined clause 'insertion in the middle' re-worded
+META['declined'] = [
+    'removal placement semantics (insertion in front of existing surfaces is decided structurally by INSERTION and listed as a known finding)' if _d.startswith('insertion in the middle') else _d
+    for _d in META['declined']]
+
+
 RULES = [insertion, derived_sync_rule, arg_wiring_rule, init_stores, scalar_conv, placement, thickness_edit, media_chain, one_stop,
          setter_writes, pickup, solve]
